@@ -56,7 +56,7 @@ func (n *MustExpressionNode) String() string {
 	var buff strings.Builder
 
 	buff.WriteString("must ")
-	buff.WriteString(n.Value.String())
+	writeExpressionWithoutModifier(&buff, n.Value)
 
 	return buff.String()
 }
